@@ -14,7 +14,9 @@
 #include <vector>
 #include "rkcommon/xml/XML.h"
 using namespace rkcommon;
+#ifndef NO_TOSTRING
 namespace rkcommon { namespace xml { std::string toString(const float f); std::string toString(const math::vec3f &v); } }
+#endif
 
 static std::string hex(const std::string &s)
 {
@@ -46,6 +48,7 @@ int main(int argc, char **argv)
 {
   if (argc < 2) return 2;
   std::string path = argv[1];
+#ifndef NO_TOSTRING
   {
     const float fs[] = {0.f, 1.5f, -2.25f, 1e10f, 1e-5f, 3.14159274f, 123456.789f, 100000.f, 1000000.f};
     printf("TOSTRING");
@@ -53,6 +56,9 @@ int main(int argc, char **argv)
     printf(" | %s\n", xml::toString(math::vec3f(1.f, -0.5f, 1e-3f)).c_str());
     fflush(stdout);
   }
+#else
+  puts("TOSTRING-NOT-BUILT");
+#endif
   std::string line;
   while (std::getline(std::cin, line)) {
     std::istringstream in(line);
